@@ -84,22 +84,38 @@ func c21BaseCases(tier string) int {
 	return len(c21Kinds) * len(c21Kinds) * len(c21Seqs) * c21NLimits(tier)
 }
 
+// The overlapping pairs have by far the largest schedule spaces; each of them is
+// split by its first event choice (taken from the case index instead of the
+// explorer, radix 3) so that the top-level cases are of similar size. A sub-case
+// whose digit exceeds the number of enabled events is void (it ends at once and
+// claims nothing).
+const (
+	c21SplitBase = 1
+	c21SplitOv   = 3
+)
+
 func c21Cases(tier string) int {
+	n := c21BaseCases(tier) * c21SplitBase
 	if tier == "thorough" {
-		return c21BaseCases(tier) + len(c21OverlapPairs)*len(c21Seqs)*c21NLimits(tier)
+		n += len(c21OverlapPairs) * len(c21Seqs) * c21NLimits(tier) * c21SplitOv
 	}
-	return c21BaseCases(tier)
+	return n
 }
 
 func c21Run(x *explore.Ctx) {
 	ci := x.Case
 	var k1, k2 string
-	overlap := ci >= c21BaseCases(x.Tier)
+	var pre []int
+	overlap := ci >= c21BaseCases(x.Tier)*c21SplitBase
 	if overlap {
-		ci -= c21BaseCases(x.Tier)
+		ci -= c21BaseCases(x.Tier) * c21SplitBase
+		sub := ci % c21SplitOv
+		ci /= c21SplitOv
+		pre = []int{sub}
 		k1, k2 = c21OverlapPairs[ci%len(c21OverlapPairs)][0], c21OverlapPairs[ci%len(c21OverlapPairs)][1]
 		ci /= len(c21OverlapPairs)
 	} else {
+		ci /= c21SplitBase
 		k1 = c21Kinds[ci%3]
 		ci /= 3
 		k2 = c21Kinds[ci%3]
@@ -113,13 +129,13 @@ func c21Run(x *explore.Ctx) {
 		pkts = pkts[:3]
 	}
 	mcLog.Reset()
-	leak := mcBubble(func() { c21Body(x, []string{k1, k2}, pkts, limit, overlap) })
+	leak := mcBubble(func() { c21Body(x, []string{k1, k2}, pkts, limit, overlap, pre) })
 	if leak != "" && !x.Failed() {
 		x.Fail("goroutines-left-blocked", "after the schedule and a complete tear-down (Manager.Close) goroutines of the bubble remain blocked: %s", leak)
 	}
 }
 
-func c21Body(x *explore.Ctx, kinds []string, pkts []mcPkt, limit int, overlap bool) {
+func c21Body(x *explore.Ctx, kinds []string, pkts []mcPkt, limit int, overlap bool, pre []int) {
 	ctx := context.Background()
 	src := &fakeSource{}
 	wo := &mcWriteouts{}
@@ -204,6 +220,7 @@ func c21Body(x *explore.Ctx, kinds []string, pkts []mcPkt, limit int, overlap bo
 		nextReq      int
 		maxBuffered  int
 		sawStaleSeen bool
+		void         bool // the case index names an event that does not exist: nothing to explore
 	)
 	inflight := func() (n int, kind string) {
 		for _, r := range reqs {
@@ -300,13 +317,35 @@ func c21Body(x *explore.Ctx, kinds []string, pkts []mcPkt, limit int, overlap bo
 		for i, e := range evs {
 			names[i] = e.name
 		}
-		c := x.Choose(len(evs), strings.Join(names, " | "))
+		var c int
+		if step < len(pre) {
+			// dictated by the case index
+			if c = pre[step]; c >= len(evs) {
+				void = true
+				break
+			}
+			x.Logf("  [case] %s = %d/%d", strings.Join(names, " | "), c, len(evs))
+		} else {
+			c = x.Choose(len(evs), strings.Join(names, " | "))
+		}
 		x.Transition()
 		x.Logf("step %d: %s   (ring %d, held back %d, unblock pending %v, poll parked %v, lock requested %v, unlock requested %v)", step, evs[c].name, len(src.ring), held, src.pending, src.PollParked(), lockReq, unlockReq)
 		evs[c].do()
 	}
 
 	// ---- end of the schedule: everything delivered, nothing enabled ----
+	if void {
+		x.Obs("void sub-case")
+		src.SetAuto()
+		synctest.Wait()
+		closed := false
+		go func() { mgr.Close(ctx); closed = true }()
+		synctest.Wait()
+		if !closed {
+			explore.HarnessErrorf("void sub-case: Manager.Close does not return")
+		}
+		return
+	}
 	nfl, _ := inflight()
 	overflows := mcLog.Count(capture.ErrLocalBufferOverflow.Error())
 	for i, r := range reqs {
@@ -550,7 +589,7 @@ func popcount(m int) (n int) {
 func init() {
 	register("C21", &explore.Scenario{
 		ID: "C21", Name: "three-point lock: packet arrival x write-out / status / live-query pauses, all orders", Level: "model_checking",
-		Rule:  "cases = request pair (writeout|status|live)^2, run one after the other, x 3 packet sequences (mixed IPv4/IPv6, both directions, distinct sizes, one with a non-first fragment; 3 packets quick, 4 thorough) x local buffer limit {default, 48 bytes = overflow at the 2nd/3rd buffered packet, thorough also 24 bytes = at the 1st/2nd}; thorough adds the pairs (live,writeout) (live,status) (live,live) (writeout,live) with TWO local buffers where the second request may start while the first pause is on (3 packets). Per case ALL orders of the events {next packet arrives, parked poll sees the pending unblock, release a requester from Unblock / Stats / just-locked (live), start next request} with the bubble run to quiescence after each; state = (packets delivered, ring, packets held back in the local buffer, unblock pending, poll parked, lock/unlock requested, flow-log hash, request phases, parked seams, write-outs); non-trivial = schedules in which packets were held back in the local buffer, distinct by (requests, maximum held back, overflows, stale unblock seen) and by the set of packets lost to a reported overflow",
+		Rule:  "cases = request pair (writeout|status|live)^2, run one after the other, x 3 packet sequences (mixed IPv4/IPv6, both directions, distinct sizes, one with a non-first fragment; 3 packets quick, 4 thorough) x local buffer limit {default, 48 bytes = overflow at the 2nd/3rd buffered packet, thorough also 24 bytes = at the 1st/2nd}; thorough adds the pairs (live,writeout) (live,status) (live,live) (writeout,live) with TWO local buffers where the second request may start while the first pause is on (3 packets); each overlapping pair is split by its first event choice, encoded in the case index to keep cases of similar size (digits that name no enabled event give void cases). Per case ALL orders of the events {next packet arrives, parked poll sees the pending unblock, release a requester from Unblock / Stats / just-locked (live), start next request} with the bubble run to quiescence after each; state = (packets delivered, ring, packets held back in the local buffer, unblock pending, poll parked, lock/unlock requested, flow-log hash, request phases, parked seams, write-outs); non-trivial = schedules in which packets were held back in the local buffer, distinct by (requests, maximum held back, overflows, stale unblock seen) and by the set of packets lost to a reported overflow",
 		Cases: c21Cases,
 		Bound: func(string) int { return 0 },
 		Run:   c21Run, Setup: mcSetup,
